@@ -55,6 +55,15 @@ func (fv *FuncVC) evalCall(call *ast.CallExpr, st *State) []Val {
 	case *types.Func:
 		return fv.evalFuncCall(call, o, st)
 	}
+	// call of a local closure (assigned once) that has its own contract `<Func>$lit<k>`: modular call against
+	// that contract (the literal is verified separately by genLit; this is what makes recursive closures reachable)
+	if id, ok := ast.Unparen(call.Fun).(*ast.Ident); ok {
+		if fl := fv.localClosure(fv.info.ObjectOf(id)); fl != nil {
+			if res, ok := fv.callClosureContract(call, fl, st); ok {
+				return res
+			}
+		}
+	}
 	// call of a local closure `f := func(params) T { return e }` (assigned once): inlined
 	if id, ok := ast.Unparen(call.Fun).(*ast.Ident); ok {
 		if fl := fv.localClosure(fv.info.ObjectOf(id)); fl != nil && straightLine(fl.Body.List) {
@@ -1302,4 +1311,85 @@ func (fv *FuncVC) callVerbObligations(call *ast.CallExpr, full string, args []Va
 			fv.oblig(st, "post", fmt.Sprintf("callverb:%s:%q@%d", full, cv.Context, n), fmt.Sprintf("in the text %q emitted by %s, the value printed is %s", cv.Context, full, cv.Text), fv.eqVals(args[idx], want))
 		}
 	}
+}
+
+// callClosureContract applies the contract of a function literal bound to a local variable at a call of that
+// variable. Names of the contract resolve to the literal's parameters (bound to the arguments) and otherwise to
+// the variables of the enclosing function, which are the very variables the literal captures. Refused (the caller
+// falls back to the dynamic-call rule) when the literal assigns a captured variable: only heap effects are
+// expressible in `modifies`.
+func (fv *FuncVC) callClosureContract(call *ast.CallExpr, fl *ast.FuncLit, st *State) ([]Val, bool) {
+	fc, key := fv.closureContract(fl)
+	if fc == nil {
+		return nil, false
+	}
+	declared := map[types.Object]bool{}
+	ast.Inspect(fl, func(m ast.Node) bool {
+		if id, ok := m.(*ast.Ident); ok {
+			if o := fv.info.Defs[id]; o != nil {
+				declared[o] = true
+			}
+		}
+		return true
+	})
+	for _, o := range assignedVars(fv.info, fl.Body) {
+		if !declared[o] {
+			return nil, false
+		}
+	}
+	var params []*ast.Ident
+	for _, f := range fl.Type.Params.List {
+		params = append(params, f.Names...)
+	}
+	if len(params) != len(call.Args) {
+		return nil, false
+	}
+	fv.calledContracts[fv.fi.Pkg.PkgPath+"."+key] = true
+	bind := map[string]Val{}
+	for i, p := range params {
+		a := fv.eval(call.Args[i], st)
+		bind[p.Name] = Val{a.T, a.S, fv.info.Defs[p].Type()}
+	}
+	scope := func(cur, old *State, res map[string]Val) *SpecScope {
+		sc := fv.specScope(cur, old, res != nil)
+		for n, v := range bind {
+			sc.bound[n] = v
+		}
+		for n, v := range res {
+			sc.bound[n] = v
+		}
+		return sc
+	}
+	ord := fv.nextOrd("call:" + key)
+	pre := st.clone()
+	if fv.mode == "full" {
+		for i, c := range fc.Requires {
+			g := fv.specBool(c.Expr, scope(st, pre, nil))
+			fv.oblig(st, "pre", fmt.Sprintf("pre:%s@%d:%d", key, ord, i+1), c.Text, g)
+			fv.addFact(st, g)
+		}
+	}
+	for _, loc := range fv.modLocs(fc.Modifies, scope(pre, pre, nil)) {
+		fv.havocLoc(st, loc)
+	}
+	fv.applyGhostSets(fc, st, scope(pre, pre, nil))
+	if !fc.Pure {
+		fv.growAlloc(st)
+	}
+	sig := fv.info.TypeOf(fl).(*types.Signature)
+	var results []Val
+	resBind := map[string]Val{}
+	for i := 0; i < sig.Results().Len(); i++ {
+		r := sig.Results().At(i)
+		v := fv.havocVal(st, "res$lit", r.Type())
+		results = append(results, v)
+		if i == 0 {
+			resBind["result"] = v
+		}
+		resBind[fmt.Sprintf("result%d", i+1)] = v
+	}
+	for _, c := range fc.Ensures {
+		fv.addFact(st, fv.specBool(c.Expr, scope(st, pre, resBind)))
+	}
+	return results, true
 }
